@@ -239,6 +239,9 @@ func (db *MultiBucketBackend) getBucketWithArbitraryPrefixLocked(bucket string, 
 }
 
 func (db *MultiBucketBackend) CreateBucket(name string) error {
+	if err := gofakes3.ValidateBucketName(name); err != nil {
+		return err
+	}
 	db.lock.Lock()
 	defer db.lock.Unlock()
 
@@ -255,6 +258,9 @@ func (db *MultiBucketBackend) CreateBucket(name string) error {
 }
 
 func (db *MultiBucketBackend) DeleteBucket(name string) (rerr error) {
+	if err := gofakes3.ValidateBucketName(name); err != nil {
+		return gofakes3.BucketNotFound(name)
+	}
 	db.lock.Lock()
 	defer db.lock.Unlock()
 
@@ -290,6 +296,9 @@ func (db *MultiBucketBackend) DeleteBucket(name string) (rerr error) {
 }
 
 func (db *MultiBucketBackend) ForceDeleteBucket(name string) error {
+	if err := gofakes3.ValidateBucketName(name); err != nil {
+		return gofakes3.BucketNotFound(name)
+	}
 	db.lock.Lock()
 	defer db.lock.Unlock()
 
@@ -320,6 +329,11 @@ func (db *MultiBucketBackend) ForceDeleteBucket(name string) error {
 }
 
 func (db *MultiBucketBackend) BucketExists(name string) (exists bool, err error) {
+	// Only a valid bucket name names a bucket: ".", ".." or a path are
+	// directories of the underlying filesystem, not buckets.
+	if err := gofakes3.ValidateBucketName(name); err != nil {
+		return false, nil
+	}
 	db.lock.Lock()
 	defer db.lock.Unlock()
 	exists, err = afero.Exists(db.bucketFs, name)
@@ -327,6 +341,9 @@ func (db *MultiBucketBackend) BucketExists(name string) (exists bool, err error)
 }
 
 func (db *MultiBucketBackend) HeadObject(bucketName, objectName string) (*gofakes3.Object, error) {
+	if err := gofakes3.ValidateBucketName(bucketName); err != nil {
+		return nil, gofakes3.BucketNotFound(bucketName)
+	}
 	if err := checkObjectName(objectName); err != nil {
 		return nil, err
 	}
@@ -370,6 +387,9 @@ func (db *MultiBucketBackend) HeadObject(bucketName, objectName string) (*gofake
 }
 
 func (db *MultiBucketBackend) GetObject(bucketName, objectName string, rangeRequest *gofakes3.ObjectRangeRequest) (obj *gofakes3.Object, rerr error) {
+	if err := gofakes3.ValidateBucketName(bucketName); err != nil {
+		return nil, gofakes3.BucketNotFound(bucketName)
+	}
 	if err := checkObjectName(objectName); err != nil {
 		return nil, err
 	}
@@ -442,6 +462,9 @@ func (db *MultiBucketBackend) PutObject(
 	meta map[string]string,
 	input io.Reader, size int64,
 ) (result gofakes3.PutObjectResult, err error) {
+	if err := gofakes3.ValidateBucketName(bucketName); err != nil {
+		return result, gofakes3.BucketNotFound(bucketName)
+	}
 
 	if err := checkObjectName(objectName); err != nil {
 		return result, err
@@ -524,6 +547,9 @@ func (db *MultiBucketBackend) CopyObject(srcBucket, srcKey, dstBucket, dstKey st
 }
 
 func (db *MultiBucketBackend) DeleteObject(bucketName, objectName string) (result gofakes3.ObjectDeleteResult, rerr error) {
+	if err := gofakes3.ValidateBucketName(bucketName); err != nil {
+		return result, gofakes3.BucketNotFound(bucketName)
+	}
 	db.lock.Lock()
 	defer db.lock.Unlock()
 
@@ -562,6 +588,9 @@ func (db *MultiBucketBackend) deleteObjectLocked(bucketName, objectName string) 
 }
 
 func (db *MultiBucketBackend) DeleteMulti(bucketName string, objects ...string) (result gofakes3.MultiDeleteResult, rerr error) {
+	if err := gofakes3.ValidateBucketName(bucketName); err != nil {
+		return result, gofakes3.BucketNotFound(bucketName)
+	}
 	db.lock.Lock()
 	defer db.lock.Unlock()
 
